@@ -272,6 +272,20 @@ def run_shard(ctx):
         # half of the histories are reported by ONE long-lived collection asked for several texts
         shared = ReposCollection({'r': mg.repo_for('r', repo)}) if rng.random() < 0.5 else None
         late_tags = []
+        if shared is None and rng.random() < 0.12:
+            # the refs are read from a .git directory by the production code (packed refs, annotated tags)
+            import shutil
+            import tempfile
+            git_dir = tempfile.mkdtemp(prefix="vf-c06-git-")
+            try:
+                n_ann = mg.write_packed_refs(repo, git_dir, rng)
+                cls = type(mg.repo_for('r', repo))
+                disk = ReposCollection({'r': cls('r', mg.DiskRefsRepo(repo, git_dir), 'origin')})
+                ctx.count("histories_with_refs_read_from_packed_refs")
+                ctx.count("annotated_tags_in_packed_refs", n_ann)
+                judge(ctx, repo, texts[0], {"repo": descr, "text": texts[0], "refs": "packed-refs"}, disk)
+            finally:
+                shutil.rmtree(git_dir, ignore_errors=True)
         for k, text in enumerate(texts):
             if shared is not None and k and rng.random() < 0.5:
                 # between two reports of the long-lived collection new build tags arrive (as after a fetch)
@@ -304,4 +318,18 @@ def replay(ctx, case):
             shared.make_report(t)
     for t, cid in late.items():
         repo.add_tag(t, cid)
+    if case.get("refs") == "packed-refs":
+        import random
+        import shutil
+        import tempfile
+        git_dir = tempfile.mkdtemp(prefix="vf-c06-git-")
+        try:
+            for k in range(4):       # (which tags were annotated is not recorded: several drawings)
+                mg.write_packed_refs(repo, git_dir, random.Random(k))
+                cls = type(mg.repo_for('r', repo))
+                judge(ctx, repo, case["text"], case,
+                      ReposCollection({'r': cls('r', mg.DiskRefsRepo(repo, git_dir), 'origin')}))
+        finally:
+            shutil.rmtree(git_dir, ignore_errors=True)
+        return
     judge(ctx, repo, case["text"], case, shared)
